@@ -189,6 +189,49 @@ theorem extrudeShapeTris_len (pathLen sides : Nat) (close : Bool) :
   · cases close <;> simp [extrudeRing_len]
   · exact extrudeRing_len _ _ _
 
+/-! ### extrude.polygon -/
+
+theorem polygonQuads_bound {pathLen sides : Nat} {closed : Bool} {q : Nat × Nat × Nat}
+    (hq : q ∈ polygonQuads pathLen sides closed) :
+    q.2.2 < sides ∧ q.1 + sides + 1 ≤ polygonVerts pathLen sides ∧ q.2.1 + sides + 1 ≤ polygonVerts pathLen sides := by
+  simp only [polygonQuads, List.mem_flatMap, List.mem_range] at hq
+  obtain ⟨p, hp, hq⟩ := hq
+  have h1 : (p + 1) * (sides + 1) = p * (sides + 1) + (sides + 1) := Nat.succ_mul _ _
+  have h2 : (p + 1) * (sides + 1) ≤ pathLen * (sides + 1) := Nat.mul_le_mul_right _ (by omega)
+  unfold polygonVerts
+  split at hq
+  · cases closed
+    · simp at hq
+    · simp only [if_true, List.mem_map, List.mem_range] at hq
+      obtain ⟨s, hs, rfl⟩ := hq
+      refine ⟨hs, ?_, ?_⟩ <;> dsimp only <;> omega
+  · simp only [List.mem_map, List.mem_range] at hq
+    obtain ⟨s, hs, rfl⟩ := hq
+    have h3 : (p + 1 + 1) * (sides + 1) = (p + 1) * (sides + 1) + (sides + 1) := Nat.succ_mul _ _
+    have h4 : (p + 1 + 1) * (sides + 1) ≤ pathLen * (sides + 1) := Nat.mul_le_mul_right _ (by omega)
+    refine ⟨hs, ?_, ?_⟩ <;> dsimp only <;> omega
+
+theorem polygonTris_lt (pathLen sides : Nat) (closed : Bool) (flips : List Bool) :
+    ∀ i ∈ polygonTris pathLen sides closed flips, i < polygonVerts pathLen sides := by
+  intro i hi
+  simp only [polygonTris, List.mem_flatMap] at hi
+  obtain ⟨⟨⟨b, t, s⟩, f⟩, hqf, hi⟩ := hi
+  have hq := polygonQuads_bound (List.of_mem_zip hqf).1
+  obtain ⟨hs, hb, ht⟩ := hq
+  dsimp only at hs hb ht hi
+  unfold polygonQuad at hi
+  cases f <;>
+  · simp only [if_true, if_false, Bool.false_eq_true, List.mem_cons, List.not_mem_nil, or_false] at hi
+    rcases hi with rfl | rfl | rfl | rfl | rfl | rfl <;> omega
+
+theorem polygonTris_len (pathLen sides : Nat) (closed : Bool) (flips : List Bool) :
+    (polygonTris pathLen sides closed flips).length % 3 = 0 := by
+  apply length_flatMap_mod3
+  intro qf _
+  obtain ⟨⟨b, t, s⟩, f⟩ := qf
+  unfold polygonQuad
+  cases f <;> simp
+
 /-! ### fixed tables -/
 
 theorem quadTris_ok : (∀ i ∈ quadTris, i < quadVerts) ∧ quadTris.length % 3 = 0 := by decide
